@@ -4,7 +4,7 @@ import z3
 
 from .vals import (SV, Char, Opaque, Cell, Closure, ClassRef, BoundMethod, Builtin, ExcValue, Unsupported, INT, BOOL,
                    REAL, STR, ASTR, OPQ, TOpt, TList, TTuple, TRef, TMap, TSet, sort_of, alen, aat, parse_type)
-from .core import Infeasible
+from .core import Infeasible, mem_fn
 from .strenc import is_str
 from . import contract as C
 
@@ -120,8 +120,18 @@ class AccessMixin:
             ty = ctx.type_of(cell)
         if ty is None:
             raise Unsupported(f"element type of {cell!r} unknown (declare it in the contract's locals)")
+        items = list(cell.conc) if cell.kind == "list" else None
         cell.sym = SV(ty, ctx.term(cell, ty))
         cell.conc = None
+        if items is not None and ty.name == "List" and ty.args[0].name in ("Ref", "Int", "Str"):
+            # set view of a list with known elements: exactly those elements are members
+            m = mem_fn(ty)
+            e = z3.Const(ctx.fresh_name("e"), sort_of(ty.args[0]))
+            ets = [ctx.term(x, ty.args[0]) for x in items]
+            ctx.assume(z3.ForAll([e], m(cell.sym.t, e) == (z3.Or(*[e == t for t in ets]) if ets else z3.BoolVal(False)),
+                                 patterns=[m(cell.sym.t, e)]))
+            for t in ets:
+                ctx.assume(m(cell.sym.t, t))
         return ty
 
     def unknown_cell(self, kind="list"):
@@ -234,6 +244,7 @@ class AccessMixin:
             et = ctx.term(v, ty.args[0])
             cell.sym = SV(ty, s.mk(z3.Store(s.data(t), s.len(t), et), s.len(t) + 1))
             ctx.assume(z3.Select(s.data(cell.sym.t), s.len(t)) == et)      # names the new element (E-matching trigger)
+            self.mem_append(ty, t, cell.sym.t, et)
         self.write_back(cell)
 
     def list_extend(self, cell, other):
@@ -266,6 +277,7 @@ class AccessMixin:
                 et = ctx.term(e, ty.args[0])
                 cell.sym = SV(ty, s.mk(z3.Store(s.data(t), s.len(t), et), s.len(t) + 1))
                 ctx.assume(z3.Select(s.data(cell.sym.t), s.len(t)) == et)  # names the new element (E-matching trigger)
+                self.mem_append(ty, t, cell.sym.t, et)
         else:
             ty = other.sym.ty
             if cell.sym is None:
@@ -284,7 +296,23 @@ class AccessMixin:
                                                   z3.Select(s.data(r), s.len(a) + k2) == z3.Select(s.data(b), k2)),
                                  patterns=[z3.Select(s.data(b), k2)]))
             cell.sym = SV(ty, r)
+            if ty.args[0].name in ("Ref", "Int", "Str"):
+                m = mem_fn(ty)
+                e = z3.Const(ctx.fresh_name("e"), sort_of(ty.args[0]))
+                ctx.assume(z3.ForAll([e], m(r, e) == z3.Or(m(a, e), m(b, e)), patterns=[m(r, e)]))
+                ctx.assume(z3.ForAll([e], z3.Implies(z3.Or(m(a, e), m(b, e)), m(r, e)), patterns=[m(a, e)]))
+                ctx.assume(z3.ForAll([e], z3.Implies(m(b, e), m(r, e)), patterns=[m(b, e)]))
         self.write_back(cell)
+
+    def mem_append(self, ty, old, new, et):
+        if ty.args[0].name not in ("Ref", "Int", "Str"):
+            return
+        ctx = self.ctx
+        m = mem_fn(ty)
+        e = z3.Const(ctx.fresh_name("e"), sort_of(ty.args[0]))
+        ctx.assume(z3.ForAll([e], m(new, e) == z3.Or(m(old, e), e == et), patterns=[m(new, e)]))
+        ctx.assume(z3.ForAll([e], z3.Implies(m(old, e), m(new, e)), patterns=[m(old, e)]))
+        ctx.assume(m(new, et))
 
     def slice_bounds(self, sl, ln):
         """clamped (a, b) as z3 Ints for a python slice without step"""
@@ -508,6 +536,13 @@ class AccessMixin:
         if isinstance(v, Opaque):
             return Opaque(f"{v.desc}.{attr}", fresh=v.fresh)
         if isinstance(v, Builtin):
+            if v.name.split(".")[0] not in MODULES or v.name.startswith("hed"):
+                # attribute of a repository module: a class or a function under contract
+                if self.engine.is_exception_class(attr) or self.engine.index.find_class(attr):
+                    return ClassRef(attr)
+                ct = C.find_function_contract(attr)
+                if ct is not None:
+                    return ct
             return Builtin(v.name + "." + attr)
         if isinstance(v, ClassRef):
             return self.engine.class_attr(self, v, attr)
@@ -667,6 +702,25 @@ class AccessMixin:
                                  patterns=[ginv(i)]))
             ctx.comp_inverse = getattr(ctx, "comp_inverse", [])
             ctx.comp_inverse.append(ginv)
+        # set view: for [x for x in xs if cond(x)] the members are exactly the members of xs that satisfy cond
+        if isinstance(n.elt, ast.Name) and isinstance(g.target, ast.Name) and n.elt.id == g.target.id \
+                and isinstance(it, Cell) and it.sym is not None and it.sym.ty == lty and ety.name in ("Ref", "Int", "Str"):
+            m = mem_fn(lty)
+            e = z3.Const(ctx.fresh_name("e"), sort_of(ety))
+            self.push_scope()
+            try:
+                self.bind(g.target, ctx.wrap(e, ety))
+                saved = ctx.spec
+                ctx.spec = True
+                try:
+                    conds = [ctx.zbool(ctx.truth(self.eval(c))) for c in g.ifs]
+                finally:
+                    ctx.spec = saved
+            finally:
+                self.pop_scope()
+            cond = z3.And(*conds) if conds else z3.BoolVal(True)
+            ctx.assume(z3.ForAll([e], m(r, e) == z3.And(m(it.sym.t, e), cond), patterns=[m(r, e)]))
+            ctx.assume(z3.ForAll([e], z3.Implies(z3.And(m(it.sym.t, e), cond), m(r, e)), patterns=[m(it.sym.t, e)]))
         return Cell("list", sym=SV(lty, r), fresh=True)
 
     def iter_model(self, it):
